@@ -53,6 +53,9 @@ func (m *SeqMon[T]) n() int { return len(m.Model) }
 // CheckAll compares every observer with the abstract sequence.
 func (m *SeqMon[T]) CheckAll(full bool) {
 	c := m.c
+	if !c.Observe() {
+		return
+	}
 	n := m.n()
 	if sz := m.L.Size(); sz != n {
 		c.Fail("size", "", "%s.Size() = %d, abstract sequence has %d elements %s", m.Name, sz, n, short(m.Model))
@@ -274,6 +277,10 @@ func runListHistory[T comparable](c *core.Ctx, d *Dom[T], steps, maxN int) {
 			}
 		}
 	}
+	for _, m := range mons {
+		c.ObserveNow()
+		m.CheckAll(true)
+	}
 	c.Nontrivial()
 }
 
@@ -365,6 +372,7 @@ func runListSawtooth[T comparable](c *core.Ctx, d *Dom[T]) {
 func runC03(c *core.Ctx) {
 	const sweepCases = 13 * 4 * 4
 	i := c.Index
+	c.SetGaps(i >= sweepCases && i%2 == 1)
 	switch {
 	case i < sweepCases:
 		runListSweep(c, IntDom(5), i)
